@@ -110,6 +110,8 @@ let run (toks : string list) (obs : string) : string =
     (* allocation figures are measured on the real code only; echo them so that only the result is compared *)
     let tail = (match split_bar obs with [_; m] -> " | " ^ m | _ -> "") in
     model_dec (bytes_of_hex h) ^ tail
+  | "deep" :: d :: _ -> "exit=0 Ok depth=" ^ d          (* Proofs/Amf0Total.v depth_unbounded: the model decodes every depth *)
+  | "deepx" :: _ -> obs                                 (* extreme depths: the stack is not modelled; judged by the oracle only *)
   | "dect" :: k :: h :: _ ->
     let k = int_of_string k in
     model_dec (List.filteri (fun i _ -> i < k) (bytes_of_hex h))
@@ -157,6 +159,8 @@ let oracle (toks : string list) (obs : string) : (string * bool) list =
   | "decx" :: h :: expected ->
     (* expected observation computed by the independent reference encoder of the generator *)
     ["C12.decode_reference", obs = String.concat " " expected]
+  | ("deep" | "deepx") :: d :: _ ->
+    ["C14.deep_nesting_no_abort", obs = "exit=0 Ok depth=" ^ d; "C03.deep_nesting_no_abort", (List.hd toks = "deepx") || obs = "exit=0 Ok depth=" ^ d]
   | "decm" :: [h] ->
     let len = if h = "-" then 0 else String.length h / 2 in
     (match split_bar obs with
